@@ -23,6 +23,7 @@ import (
 	"encoding/json"
 	"fmt"
 	"regexp"
+	"sort"
 	"strings"
 	"testing"
 
@@ -140,11 +141,11 @@ func judgeB(cfg configB, r reqB, o *obsB, history string) []findingB {
 		where = "after-history"
 	}
 	if o.Panic != "" {
-		out = append(out, findingB{"b:panic|to=" + p.Label + "|names=" + forms(r.Names), "SecretGen.Generate panicked: " + o.Panic})
+		out = append(out, findingB{"b:panic|scheme=" + schemes(r.Names), "SecretGen.Generate panicked: " + o.Panic})
 	}
 	if !p.authenticated() && len(o.Resources) > 0 {
 		out = append(out, findingB{
-			"b:response-to-unauthenticated|names=" + forms(r.Names) + "|" + where,
+			"b:response-to-unauthenticated|scheme=" + schemes(r.Names) + "|" + where,
 			fmt.Sprintf("the unauthenticated stream (VerifiedIdentity nil) got %d resource(s): %s", len(o.Resources), brief(o)),
 		})
 	}
@@ -159,8 +160,8 @@ func judgeB(cfg configB, r reqB, o *obsB, history string) []findingB {
 			ns, n, _ := strings.Cut(id, "/")
 			if !mayHoldKey(cfg, p, r.Names, ns, n) {
 				out = append(out, findingB{
-					fmt.Sprintf("b:key-leak|to=%s|resource=%s|secret-in=%s|sar=%s|verified-ref=%v|%s",
-						p.Label, nameByName(res.Name).Form, relation(p, ns), sarFor(cfg, p), contains(cfg.refsOf(p), res.Name), where),
+					fmt.Sprintf("b:key-leak|scheme=%s|secret-in=%s|requester-sar=%s|verified-ref=%v|%s",
+						scheme(res.Name), relation(p, ns), sarFor(cfg, p), contains(cfg.refsOf(p), res.Name), where),
 					fmt.Sprintf("resource %q returned to %s (verified %s/%s) carries %s; RBAC %q answers %s for this identity, verified references %v: not entitled",
 						res.Name, p.Label, p.VNS, p.VSA, k, cfg.RBAC.Name, sarFor(cfg, p), cfg.refsOf(p)),
 				})
@@ -171,7 +172,7 @@ func judgeB(cfg configB, r reqB, o *obsB, history string) []findingB {
 		for _, nm := range r.Names {
 			if want := mustHoldKey(cfg, p, nm); want != "" && !got[nm][want] {
 				out = append(out, findingB{
-					fmt.Sprintf("b:key-withheld|to=%s|resource=%s|sar=%s|verified-ref=%v|%s", p.Label, nameByName(nm).Form, sarFor(cfg, p), contains(cfg.refsOf(p), nm), where),
+					fmt.Sprintf("b:key-withheld|scheme=%s|requester-sar=%s|verified-ref=%v|%s", scheme(nm), sarFor(cfg, p), contains(cfg.refsOf(p), nm), where),
 					fmt.Sprintf("%s (verified %s/%s, RBAC %s, verified references %v) asked for %q on a full push and is entitled to %s, but the response is %s",
 						p.Label, p.VNS, p.VSA, sarFor(cfg, p), cfg.refsOf(p), nm, want, brief(o)),
 				})
@@ -179,6 +180,59 @@ func judgeB(cfg configB, r reqB, o *obsB, history string) []findingB {
 		}
 	}
 	return out
+}
+
+func scheme(name string) string {
+	if i := strings.Index(name, "://"); i >= 0 {
+		return name[:i]
+	}
+	return "<none>"
+}
+
+func schemes(names []string) string {
+	set := map[string]bool{}
+	for _, n := range names {
+		set[scheme(n)] = true
+	}
+	var l []string
+	for k := range set {
+		l = append(l, k)
+	}
+	sort.Strings(l)
+	return strings.Join(l, "+")
+}
+
+func pushKind(k int) string {
+	if k == pushForced {
+		return "forced"
+	}
+	return "incremental"
+}
+
+// earlier classifies who asked before p in a history, relative to p.
+func earlier(p proxyB, h []reqB) string {
+	set := map[string]bool{}
+	for _, r := range h {
+		q := proxiesB[r.Proxy]
+		switch {
+		case !q.authenticated():
+			set["unauthenticated"] = true
+		case q.VNS == p.VNS && q.VSA == p.VSA:
+			set["same-identity"] = true
+		case q.VNS == p.VNS:
+			set["same-namespace"] = true
+		case q.VSA == p.VSA:
+			set["other-namespace-same-sa-name"] = true
+		default:
+			set["other-namespace"] = true
+		}
+	}
+	var l []string
+	for k := range set {
+		l = append(l, k)
+	}
+	sort.Strings(l)
+	return strings.Join(l, "+")
 }
 
 func brief(o *obsB) string {
@@ -244,14 +298,22 @@ func (x *runnerB) runHistory(cfg configB, h []reqB, verbose func(string)) (outco
 		fs := judgeB(cfg, r, o, past)
 		if i > 0 {
 			c := x.coldAnswer(cfg, r)
+			// what the cold stack gets wrong as well is reported by the single-request block, not per history
+			coldKeys := map[string]bool{}
+			for _, f := range judgeB(cfg, r, c, "") {
+				coldKeys[strings.TrimSuffix(f.key, "|cold")] = true
+			}
+			kept := fs[:0]
+			for _, f := range fs {
+				if !coldKeys[strings.TrimSuffix(f.key, "|after-history")] {
+					kept = append(kept, f)
+				}
+			}
+			fs = kept
 			if c.canon() != o.canon() {
 				p := proxiesB[r.Proxy]
-				var prev []string
-				for _, q := range h[:i] {
-					prev = append(prev, proxiesB[q.Proxy].Label)
-				}
 				fs = append(fs, findingB{
-					fmt.Sprintf("b:order-dependent|to=%s|names=%s|push=%s|after=%s", p.Label, forms(r.Names), pushNames[r.Push], strings.Join(prev, ",")),
+					fmt.Sprintf("b:order-dependent|scheme=%s|push=%s|earlier-requesters=%s", schemes(r.Names), pushKind(r.Push), earlier(p, h[:i])),
 					fmt.Sprintf("after {%s}, %s asking %q (%s) gets %s, but from a cold stack the same request gets %s", past, p.Label, r.Names, pushNames[r.Push], brief(o), brief(c)),
 				})
 			}
